@@ -2,7 +2,7 @@
 # typing with rdkit is not fully supported
 from __future__ import annotations
 
-from dataclasses import dataclass
+from dataclasses import dataclass, replace
 from types import MappingProxyType
 
 import rdkit.Chem as Chem  # type: ignore
@@ -87,10 +87,17 @@ class RDMol2StereoMolGraph:
                 if res_mol is not None
             )
 
+            # Bonds that are double only in another resonance structure carry
+            # no configuration of their own: they are merged only when their
+            # planar arrangement is forced (ring, aromatic), never with a
+            # configuration made up from the order of the neighbors.
+            res_converter = replace(self, stereo_complete=False)
             for res_mol in enumerator:
-                res_smg = self.smg_from_rdmol(res_mol)
+                res_smg = res_converter.smg_from_rdmol(res_mol)
                 for bond, bond_stereo in res_smg.bond_stereo.items():
-                    if bond not in smg.bond_stereo:
+                    if bond not in smg.bond_stereo and (
+                        bond_stereo.parity is not None
+                    ):
                         smg.set_bond_stereo(bond_stereo)
         return smg
 
